@@ -502,6 +502,10 @@ func workerMain(a []string) {
 			fmt.Fprintln(os.Stderr, err)
 			os.Exit(2)
 		}
+		if len(rep.Replay) == 0 {
+			fmt.Fprintf(os.Stderr, "%s has no \"replay\" member (expected a file written under replays/<ID>/)\n", a[7])
+			os.Exit(2)
+		}
 		c.Replay = rep.Replay
 	}
 	res := NewResult()
